@@ -1221,24 +1221,9 @@ func TestParameterNames(t *testing.T) {
 // the argument is positional, named or part of the variadic tail, and wherever it stands. It is never cut down to its
 // first value. A host function that returns exactly one value through the same mechanism binds normally.
 func TestMultiValueArguments(t *testing.T) {
-	ret := func(name string, vals ...int64) *runtimev2.Fn {
-		return &runtimev2.Fn{
-			CallCheck: func(ctx *runtimev2.Task, e *ast.CallExpr) *errchain.PlError { return runtimev2.CheckPassParam(ctx, e, nil) },
-			Call: func(ctx *runtimev2.Task, e *ast.CallExpr) *errchain.PlError {
-				var out []runtimev2.V
-				for _, v := range vals {
-					out = append(out, runtimev2.V{V: v, T: ast.Int})
-				}
-				ctx.Regs.ReturnAppend(out...)
-				return nil
-			},
-			Desc: runtimev2.FnDesc{Name: name},
-		}
-	}
 	lists := [][]pdef{{{req, "a"}}, {{req, "a"}, {req, "b"}}, {{req, "a"}, {opt, "b"}}, {{opt, "a"}, {opt, "b"}}, {{vari, "r"}}, {{req, "a"}, {vari, "r"}}, {{req, "a"}, {req, "b"}, {opt, "c"}}}
 	n := 0
 	for _, l := range lists {
-		params := mkParams(l)
 		for _, multi := range []string{"two()", "three()", "one()"} {
 			var calls []string
 			switch {
@@ -1255,46 +1240,68 @@ func TestMultiValueArguments(t *testing.T) {
 			}
 			for _, ct := range calls {
 				src := "x = 7\n" + fmt.Sprintf(ct, multi)
-				var rec []string
-				fn := &runtimev2.Fn{
-					CallCheck: func(ctx *runtimev2.Task, e *ast.CallExpr) *errchain.PlError { return runtimev2.CheckPassParam(ctx, e, params) },
-					Call: func(ctx *runtimev2.Task, e *ast.CallExpr) *errchain.PlError {
-						for i := range params {
-							v, err := runtimev2.GetParam(ctx, e, params, i)
-							if err != nil {
-								return err
-							}
-							rec = append(rec, probe.Render(v))
-						}
-						return nil
-					},
-					Desc: runtimev2.FnDesc{Name: "f", Params: params},
-				}
+				checkMultiValue(t, "multivalue", l, src)
 				rp := replay{Sig: sigText(l), Call: src, Src: src}
-				sc, lerr, cr := impl.LoadV2("c19.p", src, map[string]*runtimev2.Fn{"f": fn, "two": ret("two", 10, 20), "three": ret("three", 10, 20, 30), "one": ret("one", 10)})
-				if cr != nil {
-					rk.Fail(t, "multivalue", rp, "loading %q against %s panicked: %s", src, rp.Sig, cr.Value)
-				}
-				var rerr *errchain.PlError
-				if lerr == nil {
-					rerr, cr = impl.RunV2(sc, nil)
-					if cr != nil {
-						rk.Fail(t, "multivalue", rp, "running %q against %s panicked: %s", src, rp.Sig, cr.Value)
-					}
-				}
-				if multi == "one()" {
-					if lerr != nil || rerr != nil || !strings.Contains(strings.Join(rec, " "), "i:10") {
-						rk.Fail(t, "multivalue", rp, "%q against %s: a host function returning one value is an ordinary argument, got load error %v, run error %v, received %v", src, rp.Sig, lerr, rerr, rec)
-					}
-				} else if lerr == nil && rerr == nil {
-					rk.Fail(t, "multivalue", rp, "%q against %s: an argument that yields several values was bound (received %v) instead of failing the call", src, rp.Sig, rec)
-				}
 				evid.Case("multivalue:"+rp.Sig+" <- "+src, true, "bind/multi-value-argument")
 				n++
 			}
 		}
 	}
 	evid.Exhaustive("parameter list x argument position x host function returning 1, 2 or 3 values", n)
+}
+
+// checkMultiValue loads and runs src (a call of f with an argument that is a call of two(), three() or one()) against
+// the parameter list l and applies the oracle of TestMultiValueArguments.
+func checkMultiValue(t rk.Failer, slot string, l []pdef, src string) {
+	params := mkParams(l)
+	ret := func(name string, vals ...int64) *runtimev2.Fn {
+		return &runtimev2.Fn{
+			CallCheck: func(ctx *runtimev2.Task, e *ast.CallExpr) *errchain.PlError { return runtimev2.CheckPassParam(ctx, e, nil) },
+			Call: func(ctx *runtimev2.Task, e *ast.CallExpr) *errchain.PlError {
+				var out []runtimev2.V
+				for _, v := range vals {
+					out = append(out, runtimev2.V{V: v, T: ast.Int})
+				}
+				ctx.Regs.ReturnAppend(out...)
+				return nil
+			},
+			Desc: runtimev2.FnDesc{Name: name},
+		}
+	}
+		var rec []string
+		fn := &runtimev2.Fn{
+			CallCheck: func(ctx *runtimev2.Task, e *ast.CallExpr) *errchain.PlError { return runtimev2.CheckPassParam(ctx, e, params) },
+			Call: func(ctx *runtimev2.Task, e *ast.CallExpr) *errchain.PlError {
+				for i := range params {
+					v, err := runtimev2.GetParam(ctx, e, params, i)
+					if err != nil {
+						return err
+					}
+					rec = append(rec, probe.Render(v))
+				}
+				return nil
+			},
+			Desc: runtimev2.FnDesc{Name: "f", Params: params},
+		}
+		rp := replay{Sig: sigText(l), Call: src, Src: src}
+		sc, lerr, cr := impl.LoadV2("c19.p", src, map[string]*runtimev2.Fn{"f": fn, "two": ret("two", 10, 20), "three": ret("three", 10, 20, 30), "one": ret("one", 10)})
+		if cr != nil {
+			rk.Fail(t, slot, rp, "loading %q against %s panicked: %s", src, rp.Sig, cr.Value)
+		}
+		var rerr *errchain.PlError
+		if lerr == nil {
+			rerr, cr = impl.RunV2(sc, nil)
+			if cr != nil {
+				rk.Fail(t, slot, rp, "running %q against %s panicked: %s", src, rp.Sig, cr.Value)
+			}
+		}
+		if strings.Contains(src, "one()") {
+			if lerr != nil || rerr != nil || !strings.Contains(strings.Join(rec, " "), "i:10") {
+				rk.Fail(t, slot, rp, "%q against %s: a host function returning one value is an ordinary argument, got load error %v, run error %v, received %v", src, rp.Sig, lerr, rerr, rec)
+			}
+		} else if lerr == nil && rerr == nil {
+			rk.Fail(t, slot, rp, "%q against %s: an argument that yields several values was bound (received %v) instead of failing the call", src, rp.Sig, rec)
+		}
 }
 
 // TestCollectionDefaults: an omitted optional parameter takes its declared default - the very value the declaration
@@ -1653,6 +1660,10 @@ func TestReplays(t *testing.T) {
 			c, ok2 := parseCall(r.Case.Call)
 			if !ok1 {
 				t.Skip("unparsable replay")
+			}
+			if strings.Contains(r.Case.Call, "\n") && (strings.Contains(r.Case.Call, "two()") || strings.Contains(r.Case.Call, "three()") || strings.Contains(r.Case.Call, "one()")) {
+				checkMultiValue(t, "replay", l, r.Case.Call)
+				return
 			}
 			if checkList(t, "replay", l) && ok2 && r.Case.Call != "" {
 				checkCall(t, "replay", l, c)
